@@ -1857,8 +1857,9 @@ package gogen
 // Go assigns to x's type, and a value target the element type (Go spec "For statements with range clause": the
 // iteration values are assigned to the operands as in an assignment statement)
 //@ func (*forRangeStmt).RangeAssignThen
-//@ prop C01
+//@ prop C01 C09
 //@ partial
+//@ assertcall@C09 Insert: in(pkg.names, name)
 //@ requires cb != nil && cb.pkg != nil && StkWf(cb) && forall(i, 0, len(cb.stk.data), cb.stk.data[i] != nil)
 //@ ensures imp(old(p.names) == nil && old(len(cb.stk.data) - cb.current.base) >= 2, gforall(k, gforall(v, imp(RangeTypesOK(old(cb.stk.data[len(cb.stk.data)-1].Type), k, v), imp(old(cb.stk.data[cb.current.base].Type) != nil, AssignTypeOK(old(cb.stk.data[cb.current.base].Type), k))))))
 //@ ensures imp(old(p.names) == nil && old(len(cb.stk.data) - cb.current.base) == 3 && old(cb.stk.data[cb.current.base + 1].Val) != nil, gforall(k, gforall(v, imp(RangeTypesOK(old(cb.stk.data[len(cb.stk.data)-1].Type), k, v), imp(old(cb.stk.data[cb.current.base + 1].Type) != nil, AssignTypeOK(old(cb.stk.data[cb.current.base + 1].Type), v))))))
@@ -1917,3 +1918,11 @@ package gogen
 //@ func (setTyper).setType
 //@ prop C09
 //@ readonly
+
+// var / const / := with initialisers: a name is entered into a scope only after it was reserved in the package name
+// table (whatever scope it is declared in), so that no import is later given that name (importName)
+//@ func (*ValueDecl).endInit
+//@ prop C09
+//@ partial
+//@ requires cb != nil && cb.pkg != nil && cb.pkg.names != nil
+//@ assertcall Insert: in(pkg.names, name)
